@@ -99,7 +99,7 @@ func be64(v uint64) []byte {
 
 func TestC03(t *testing.T) {
 	r := kit.Start(t, "C03", "exploration")
-	r.Rule("(A) blocks of 1..3 transactions of 1..16 programmable actions that read/write/delete/re-create keys including the sponsor's own balance key and then fail at a PRNG-chosen point (prefix balance handler); (B) blocks of reference-VM transfer transactions (self transfers, full-balance, zero and overflowing amounts; reference-VM balance handler that deletes empty accounts). Each block is executed by the real processor; every result (success flag, per-action outputs which echo every read, units, fee), the sponsor balance, every other key and the state root are compared with an independent model that charges fee = sum(price*units) first and applies actions all-or-nothing. Non-trivial = a transaction that touches its sponsor's balance key or fails after writing; distinct = distinct op/transfer sequence.")
+	r.Rule("(A) blocks of 1..3 transactions of 1..16 programmable actions that read/write/delete/re-create keys including the sponsor's own balance key and then fail at a PRNG-chosen point (prefix balance handler); in a third of these blocks a sponsor WITHOUT a balance entry in the parent state is funded by an earlier transaction of the block (exactly fee / fee+-1 / fees of two later transactions / funding write rolled back or lacking allocate) or drained by another or by its own earlier transaction (to exactly fee / fee-1 / 0 / deleted) and pays for a later transaction, interleaved with the others; (B) blocks of reference-VM transfer transactions (self transfers, full-balance, zero and overflowing amounts; reference-VM balance handler that deletes empty accounts; in a quarter of the blocks an empty/poor account is first funded by a transfer with exactly fee / fee+-1 / fee+spend(-1) of its own following transaction, or the richest account keeps exactly that much). Each block is executed by the real processor; every result (success flag, per-action outputs which echo every read, units, fee), the sponsor balance, every other key and the state root are compared with an independent model that charges fee = sum(price*units) first and applies actions all-or-nothing. Non-trivial = a transaction that touches its sponsor's balance key or fails after writing; distinct = distinct op/transfer sequence.")
 	r.Assume("unit prices of the block come from the real fee manager (C13)", "units formula is re-derived in the model (also judged by C12)")
 	ctx := context.Background()
 	rng := r.Rand("progs")
@@ -109,20 +109,39 @@ func TestC03(t *testing.T) {
 		if rng.IntN(3) == 0 {
 			w.Rules.MinUnitPrice = [5]uint64{uint64(1 + rng.IntN(500)), uint64(rng.IntN(300)), uint64(rng.IntN(300)), uint64(rng.IntN(300)), uint64(rng.IntN(300))}
 		}
+		w.AddFresh(1) // a sponsor without any balance entry in the parent state
 		fx, err := w.Fixture()
 		if err != nil {
 			t.Fatal(err)
 		}
 		model := w.Model()
 		ts := int64(1_700_000_000_000) + int64(rng.IntN(1000))*1000
+		prices, err := nextPrices(ctx, fx, fx.DB, ts)
+		if err != nil {
+			t.Fatal(err)
+		}
 		var txs []*chain.Transaction
 		ntx := 1 + rng.IntN(3)
+		cross := rng.IntN(3) == 0
+		if cross {
+			ntx = rng.IntN(3)
+		}
 		for i := 0; i < ntx; i++ {
 			tx, err := genC03Tx(rng, w, fx, ts, 16)
 			if err != nil {
 				t.Fatal(err)
 			}
 			txs = append(txs, tx)
+		}
+		if cross {
+			// the fresh sponsor is funded (exactly fee / fee+-1 / for two transactions) or drained by an
+			// earlier transaction of the block and pays for a later one; interleaved with the others
+			pat, kind, err := w.GenSponsorCross(rng, chainfx.DefaultGen(), prices, ts, 0, rng.IntN(len(w.Factories)), rng.IntN(len(w.Factories)))
+			if err != nil {
+				t.Fatal(err)
+			}
+			txs = chainfx.Interleave(rng, txs, pat)
+			r.Count("sponsor_cross/"+kind, 1)
 		}
 		wit := c03Witness{Handler: "prefix", PreState: map[string]string{}}
 		for _, tx := range txs {
@@ -133,10 +152,6 @@ func TestC03(t *testing.T) {
 			wit.PreState[kit.Hex([]byte(k))] = kit.Hex(v)
 		}
 		blk, err := fx.Block(fx.Genesis, fx.DB, ts, txs)
-		if err != nil {
-			t.Fatal(err)
-		}
-		prices, err := nextPrices(ctx, fx, fx.DB, ts)
 		if err != nil {
 			t.Fatal(err)
 		}
@@ -169,6 +184,13 @@ func TestC03(t *testing.T) {
 			}
 		default:
 			r.Count("invalid_blocks", 1)
+		}
+		if cross {
+			if pred.Invalid == "" {
+				r.Count("sponsor_cross_blocks_valid", 1)
+			} else {
+				r.Count("sponsor_cross_blocks_invalid", 1)
+			}
 		}
 		r.Distinct(wit.Txs)
 		r.Sample(wit.Txs)
@@ -206,6 +228,27 @@ func runMorphCase(ctx context.Context, t *testing.T, r *kit.Run, rng *rand.Rand,
 		var txs []*chain.Transaction
 		gm := model.clone() // generation-time view of balances (approximate after failures)
 		gm.start = model.clone().bal
+		if rng.IntN(4) == 0 {
+			// an account whose ability to pay changes inside the block (funded / drained to exactly
+			// fee, fee+-1 by an earlier transaction); placed first so that the aim is exact
+			pat, kind, err := mw.genMorphCross(rng, gm, ts, prices)
+			if err != nil {
+				t.Fatal(err)
+			}
+			fresh := len(pat) > 0
+			for _, tx := range pat {
+				fresh = fresh && !seenTx[tx.GetID()]
+			}
+			if fresh {
+				for _, tx := range pat {
+					seenTx[tx.GetID()] = true
+					txs = append(txs, tx)
+					_, _ = gm.applyTx(tx, prices)
+				}
+				r.Count("pay_ability_cross/"+kind, 1)
+				ntx = rng.IntN(ntx + 1) // and fewer random transactions behind it
+			}
+		}
 		for i := 0; i < ntx; i++ {
 			tx, err := mw.genTransferTx(rng, gm, ts, 16, prices)
 			if err != nil {
@@ -310,7 +353,7 @@ var _ = bytes.Equal
 
 func TestC06(t *testing.T) {
 	r := kit.Start(t, "C06", "exploration")
-	r.Rule("reference token VM (morpheusvm Transfer + its balance handler): histories of 1..4 blocks of 1..8 transactions of 1..16 transfers among 3..5 accounts (self transfers, full-balance, near-full after fee, zero, 1 and overflowing amounts; accounts that are empty, nearly broke or near 2^64) executed by the real processor. After every block: every result equals an independent balance-map model, sum(balances after) = sum(before) - sum(fees) in 128-bit arithmetic on balances read back from the executed view, and the executed state root equals the root of parent + model balance diff + metadata keys (nothing else was touched). Distinct = distinct block transfer sequence.")
+	r.Rule("reference token VM (morpheusvm Transfer + its balance handler): histories of 1..4 blocks of 1..8 transactions of 1..16 transfers among 3..5 accounts (self transfers, full-balance, near-full after fee, zero, 1 and overflowing amounts; accounts that are empty, nearly broke or near 2^64; in a quarter of the blocks an empty or poor account is funded by an earlier transfer of the same block with exactly fee / fee+1 / fee-1 / fee+spend / fee+spend-1 of its own later transaction, or the richest account sends away all but exactly that) executed by the real processor. After every block: every result equals an independent balance-map model, sum(balances after) = sum(before) - sum(fees) in 128-bit arithmetic on balances read back from the executed view, and the executed state root equals the root of parent + model balance diff + metadata keys (nothing else was touched). Distinct = distinct block transfer sequence.")
 	r.Assume("closed account universe: recipients are drawn from the world's accounts", "unit prices from the real fee manager (C13)")
 	ctx := context.Background()
 	rng := r.Rand("histories")
